@@ -678,6 +678,9 @@ func refl(c px.Context, t *gty, ve sx.Sexp, register bool) core.Result {
 			}
 			return res(out, "FAIL fault wrap: "+wtext)
 		}
+		if strings.Contains(ttext, "already present in the implementation registry") && !register && nestedStruct(t, false) {
+			return res(out, "FAIL anon-struct-nested derive type: "+ttext)
+		}
 		return res(out, "FAIL fault derive type: "+ttext)
 	}
 	// the derived type accepts the wrapped value
@@ -718,6 +721,25 @@ func refl(c px.Context, t *gty, ve sx.Sexp, register bool) core.Result {
 		return res(out, "FAIL "+instClass(t, gv, true)+" "+ts+" rejects "+ws)
 	}
 	return res(out, "ok")
+}
+
+// nestedStruct: some struct type occurs inside another struct type
+func nestedStruct(t *gty, inside bool) bool {
+	if t == nil {
+		return false
+	}
+	if t.kind == "struct" {
+		if inside {
+			return true
+		}
+		inside = true
+	}
+	for _, f := range t.fields {
+		if nestedStruct(f.t, inside) {
+			return true
+		}
+	}
+	return nestedStruct(t.key, inside) || nestedStruct(t.elem, inside)
 }
 
 // ---- classification of failures (each class names one precise cause) ----------------------------------------------
